@@ -314,4 +314,208 @@ class StingySelectH(_B):
         return out
 
 
-HARNESSES = [SolveH(), SelectH(), StingySelectH()]
+
+class SolveBuiltinH(Harness):
+    """AtLeast.solve WITHOUT a solver callable (the branch that hands the model to the compiled solver): the real
+    `_to_pyrs_theory` (real flatten, index map, StatementPy / AtLeastPy construction) and the real objective / solution
+    translation, against `pyvc.rsmodel.TheoryPy.solve` as an OPEN contract (records its arguments, answers with fresh symbolic
+    values -- nothing is assumed about what the compiled solver computes).  Bounded in shape (c01glue shapes), unbounded in
+    thresholds, leaf bounds and weights.  The statement of a node is identified independently of the map the code builds: a
+    leaf by its (symbolic) bounds, a compound by the statements of its children.
+
+      builtin/objective   the dictionary handed over for a request maps the statement index of every id named in the
+                          request to exactly the weight given for that id, and has no other entry
+      builtin/result      the reported dictionary maps every leaf id and every explicitly named sub-proposition id to the
+                          value the solver gave the statement of that id (generated ids only when asked for), and names
+                          nothing else; objective value and status code are passed through
+    C15 as stated is about a supplied solver callable; this harness carries the same alignment clauses over to the
+    built-in route (it shares `_to_pyrs_theory` with C01's glue)."""
+    name = "AtLeast.solve(built-in)"
+    function = "AtLeast.solve"
+    module = "puan.logic.plog"
+    functions = ["AtLeast.solve", "AtLeast._to_pyrs_theory", "AtLeast.flatten"]
+    numpy_mode = "sym"
+    rs_model = True
+
+    def cases(self):
+        from .c01glue import SHAPES
+        out = []
+        for shape in ("flat", "nested"):
+            comps = sorted(SHAPES[shape])
+            for sg in itertools.product((1, -1), repeat=len(comps)):
+                for virtual in (False, True):
+                    out.append({"shape": shape, "signs": dict(zip(comps, sg)), "virtual": virtual})
+        return out
+
+    def setup(self, c, case):
+        from .c01glue import build, SHAPES
+        top, objs, leaves, lo, hi, vals = build(c, c.repo, case["shape"], case["signs"])
+        names = sorted(objs)
+        # weights for every second id (in sorted order) plus the top; an objective may name any id of the model
+        w = {}
+        for j, n in enumerate(names):
+            if j % 2 == 0 or n == "T":
+                w[n] = SInt(z3.Int(f"w.{n}"))
+        return {"top": top, "objs": objs, "leaves": leaves, "lo": lo, "hi": hi, "weights": w, "tree": SHAPES[case["shape"]]}
+
+    def run(self, c, st):
+        c.nd_epoch = 1
+        # the ids are plain strings here; the order of the request's keys is the insertion order above and reversed
+        w = st["weights"]
+        first = dict(w)
+        second = dict(reversed(list(w.items())))
+        c.repo.load("puan.logic.plog").pr.TheoryPy.last_solve = None
+        return list(st["top"].solve([first, second, {}], include_virtual_variables=c.state_case["virtual"]))
+
+    @staticmethod
+    def _index_of(theory, st):
+        """statement index of every node, from the statements themselves"""
+        tree, lo, hi = st["tree"], st["lo"], st["hi"]
+        idx = {}
+        for l in st["leaves"]:
+            hits = [s.variable for s in theory.statements if s.expression is None and hasattr(s.bounds[0], "t")
+                    and hasattr(s.bounds[1], "t") and z3.eq(s.bounds[0].t, lo[l].t) and z3.eq(s.bounds[1].t, hi[l].t)]
+            if len(hits) != 1:
+                return None
+            idx[l] = hits[0]
+        pending = [n for n in tree]
+        for _ in range(len(pending) + 1):
+            for n in list(pending):
+                if all(k in idx for k in tree[n]):
+                    want = sorted(idx[k] for k in tree[n])
+                    hits = [s.variable for s in theory.statements if s.expression is not None and sorted(s.expression.ids) == want]
+                    if len(hits) != 1:
+                        return None
+                    idx[n] = hits[0]
+                    pending.remove(n)
+        return idx if not pending else None
+
+    def ensures(self, c, st, res):
+        rs = c.repo.load("puan.logic.plog").pr
+        last = getattr(rs.TheoryPy, "last_solve", None)
+        out = [("builtin/solver-called-once", last is not None and len(getattr(last[0], "solve_calls", [])) == 1)]
+        if last is None:
+            return out
+        theory, handed, _ = last
+        idx = self._index_of(theory, st)
+        out.append(("builtin/statements-identify-the-nodes", idx is not None and len(handed) == 3))
+        if idx is None or len(handed) != 3:
+            return out
+        w = st["weights"]
+        for q in (0, 1):
+            ok = len(handed[q]) == len(w)
+            for n, wn in w.items():
+                ok = band(ok, (handed[q][idx[n]] == wn) if idx[n] in handed[q] else False)
+            out.append((f"builtin/objective[{q}]", ok))
+        out.append(("builtin/objective[empty]", len(handed[2]) == 0))
+        answers = theory.solve_answers
+        out.append(("builtin/result.count", len(res) == 3))
+        if len(res) == 3:
+            for q in range(3):
+                d, ov, status = res[q]
+                sol, ov0, st0 = answers[q]
+                ok = band(ov == ov0, status == st0)
+                for n, i in idx.items():
+                    explicit = True            # every id of these shapes is explicitly given (generated_id False)
+                    ok = band(ok, (d[n] == sol[i]) if n in d else False)
+                ok = band(ok, len(d) == len(idx))
+                out.append((f"builtin/result[{q}]", ok))
+        return out
+
+    def concretise(self, case, k, model, c, st):
+        from .common import _mv
+        g = lambda v: _mv(model, v.t)
+        return {"case": dict(case), "lo": {l: g(v) for l, v in st["lo"].items()}, "hi": {l: g(v) for l, v in st["hi"].items()},
+                "values": {n: _mv(model, z3.Int(f"value.{n}")) for n in st["tree"]},
+                "weights": {n: g(v) for n, v in st["weights"].items()}}
+
+    def replay(self, w):
+        """the real branch with the compiled TheoryPy wrapped by a recording proxy (the compiled solver still answers)"""
+        import puan
+        import puan.logic.plog as pg
+        from .shapes import _Shape
+        top, tree = _Shape.native(w)
+        real_theory = pg.pr.TheoryPy
+        rec = {}
+
+        real_statement = pg.pr.StatementPy
+
+        class RecStatement:
+            def __init__(self, variable, bounds, expression):
+                self.variable, self.bounds, self.expression = variable, tuple(bounds), expression
+                self.inner = real_statement(variable, bounds, expression)
+
+        class Proxy:
+            def __init__(self, statements):
+                self.statements = list(statements)
+                self.inner = real_theory([s_.inner for s_ in self.statements])
+
+            def solve(self, objectives, reduced):
+                rec["objectives"] = [dict(o) for o in objectives]
+                rec["statements"] = self.statements
+                rec["answers"] = self.inner.solve(objectives, reduced)
+                return rec["answers"]
+
+            def __getattr__(self, n):
+                return getattr(self.inner, n)
+        weights = dict(w["weights"])
+        pg.pr.TheoryPy, pg.pr.StatementPy = Proxy, RecStatement
+        try:
+            res = list(top.solve([dict(weights), dict(reversed(list(weights.items()))), {}],
+                                 include_virtual_variables=w["case"]["virtual"]))
+        finally:
+            pg.pr.TheoryPy, pg.pr.StatementPy = real_theory, real_statement
+        violated, detail = [], {"model": top.to_text(), "weights": weights}
+        # statement index of each id, from the statements: leaves by bounds where unique, else by the order of flatten()
+        ids = [x.id for x in top.flatten()]
+        if len(rec.get("statements", [])) != len(ids):
+            return {"violated": ["builtin/statements-identify-the-nodes"], "detail": detail}
+        idx = {}
+        by_kids = {}
+        for n in tree:
+            by_kids[n] = None
+        flat = {x.id: x for x in top.flatten()}
+        stm = rec["statements"]
+        # leaves: a statement without expression; match by bounds, ties broken by the only consistent assignment of parents
+        import itertools as it
+        leaf_ids = [i for i in ids if i not in tree]
+        leaf_st = [s.variable for s in stm if s.expression is None]
+        found = None
+        for perm in it.permutations(leaf_st, len(leaf_ids)):
+            cand = dict(zip(leaf_ids, perm))
+            okb = all(tuple(next(s for s in stm if s.variable == cand[l]).bounds) == tuple(flat[l].bounds.as_tuple()) for l in leaf_ids)
+            if not okb:
+                continue
+            full = dict(cand)
+            pend = list(tree)
+            good = True
+            for _ in range(len(pend) + 1):
+                for n in list(pend):
+                    if all(k in full for k in tree[n]):
+                        hits = [s.variable for s in stm if s.expression is not None and sorted(s.expression.ids) == sorted(full[k] for k in tree[n])]
+                        if len(hits) != 1:
+                            good = False
+                        else:
+                            full[n] = hits[0]
+                        pend.remove(n)
+            if good and not pend:
+                found = full
+                break
+        if found is None:
+            return {"violated": ["builtin/statements-identify-the-nodes"], "detail": detail}
+        for q, req in enumerate([weights, dict(reversed(list(weights.items())))]):
+            want = {found[n]: v for n, v in req.items()}
+            if rec["objectives"][q] != want:
+                violated.append(f"builtin/objective[{q}]"); detail[f"handed[{q}]"] = {str(a): b for a, b in rec["objectives"][q].items()}
+                detail[f"expected[{q}]"] = {str(a): b for a, b in want.items()}
+        if rec["objectives"][2] != {}:
+            violated.append("builtin/objective[empty]")
+        for q in range(3):
+            sol = rec["answers"][q][0]
+            want = {n: sol[i] for n, i in found.items() if i in sol}      # the compiled solver leaves the asserted top out
+            if dict(res[q][0]) != want:
+                violated.append(f"builtin/result[{q}]"); detail[f"reported[{q}]"] = {str(a): int(b) for a, b in res[q][0].items()}
+        return {"violated": violated, "detail": detail}
+
+
+HARNESSES = [SolveH(), SelectH(), StingySelectH(), SolveBuiltinH()]
